@@ -78,7 +78,7 @@ def shipped_core_dir():
     return os.path.join(os.path.dirname(os.path.abspath(pyopenapi_gen.__file__)), "core")
 
 
-def check_project(doc, out_pkg="cli", core_pkg=None, naming="operationId", stale=None, fs=None):
+def check_project(doc, out_pkg="cli", core_pkg=None, naming="operationId", stale=None, fs=None, reset=True):
     with sandbox.scratch() as d:
         root = os.path.join(d, "proj")
         gen_root = root
@@ -101,7 +101,7 @@ def check_project(doc, out_pkg="cli", core_pkg=None, naming="operationId", stale
             os.chdir(d)
             gen_root = "proj"
         try:
-            files, err = sandbox.generate(doc, gen_root, output_package=out_pkg, core_package=core_pkg, naming=naming)
+            files, err = sandbox.generate(doc, gen_root, output_package=out_pkg, core_package=core_pkg, naming=naming, reset=reset)
         finally:
             if cwd is not None:
                 os.chdir(cwd)
@@ -121,7 +121,7 @@ def check_project(doc, out_pkg="cli", core_pkg=None, naming="operationId", stale
                         open(p, "w").close()
             if stale["second_client"]:
                 out_pkg = out_pkg.rsplit(".", 1)[0] + ".other" if "." in out_pkg else "other"
-            files, err = sandbox.generate(doc, root, output_package=out_pkg, core_package=core_pkg, naming=naming, force=True)
+            files, err = sandbox.generate(doc, root, output_package=out_pkg, core_package=core_pkg, naming=naming, force=True, reset=False)
             if err is not None:
                 return None
         core = core_pkg or (out_pkg + ".core")
@@ -168,7 +168,7 @@ def check_two_clients(case):
     with sandbox.scratch() as d:
         root = os.path.join(d, "proj")
         for c, sp in zip(clients, case["specs"]):
-            files, err = sandbox.generate(c11.spec_doc(sp), root, output_package=c, core_package=core, spec_name=f"{sp}.json")
+            files, err = sandbox.generate(c11.spec_doc(sp), root, output_package=c, core_package=core, spec_name=f"{sp}.json", reset=(c == clients[0]))
             if err is not None:
                 return None
         found = []
@@ -208,7 +208,7 @@ def run_case(case):
         with sandbox.scratch() as d0:
             sandbox.generate(doc, os.path.join(d0, "proj"), output_package=out_pkg, core_package=case["first"], reset=False)
         label = f"core-switch|{case['doc']}|out={out_pkg}|first={case['first']}|second={case['second']}"
-        r = check_project(doc, out_pkg, case["second"])
+        r = check_project(doc, out_pkg, case["second"], reset=False)
     elif k == "hostile-text":
         from . import c15
 
